@@ -83,6 +83,18 @@ CHECKS = {
         note=TB + " Empty selections are left unspecified (only consistency is asserted); descriptor counts are upper-bounded by the specification and exact at quiescence.",
         technique="TLA+ selection algebra and handle-lifecycle model + TLC, API history replay with descriptor counting, trace validation",
     ),
+    "C11": dict(
+        text="HeaderFooter.tla states exclusion as a contract whose guard is the property: FilterOK(p, removed) holds iff every removed "
+             "fragment lies in a margin band and repeats at that band+position on another page or is a page-number pattern, and every "
+             "line running at the same margin position on every page (and running page numbers) of the requested band is removed. TLC "
+             "checks the contract's own sanity lemmas and enumerates all 2304 generated documents x 3 options with their allowed / "
+             "mandatory sets; the real removals (layout.HeaderFooterDetector directly, and tabula.Open(..).Pages(p).Exclude*().Text() on "
+             "rendered PDFs, per page so that detection-on-all-pages is exercised) are judged by that guard and the recorded Filter "
+             "events are validated by HeaderFooterTrace.tla.",
+        design_ref="4.11",
+        note=TB + " Fragments are generated well inside one band (the 72 pt threshold itself is not probed); DOCX/ODT/PPTX header parts are covered under C16.",
+        technique="TLA+ contract with the property as action guard, TLC enumeration of documents, guard evaluation on real removals, trace validation",
+    ),
     "C08": dict(
         text="GState.tla is the ISO 32000 graphics/text-state machine (one action per operator). TLC checks its invariants "
              "exhaustively (all programs to a bounded length over a 21-operator alphabet, and refutes the post-multiplying "
